@@ -733,7 +733,7 @@ pub fn examine(
                         let got = place.map(|p| p.pos_in_unit);
                         let want = hp.map(|(_, i)| i);
                         let fname = hook_func.get(&pc).copied().flatten().and_then(|(u, o)| units[u].fns.iter().find(|f| f.0 == o).and_then(|f| f.1.clone()));
-                        let name_ok = fname.as_ref().map(|n| name.ends_with(n.as_str())).unwrap_or(false);
+                        let name_ok = match fname.as_ref() { Some(n) => name.ends_with(n.as_str()), None => name == "<unknown>" }; // a DIE without any name is shown as <unknown>
                         if got != want || !name_ok {
                             st.api_mismatch.push(format!("{label}: resolve_function_at_pc({pc:#x}) = ({name}, row {got:?}), hooks: function {fname:?}, row {want:?}"));
                         }
